@@ -61,7 +61,7 @@ func findCtxIO(p *Prog) []ctxIO {
 		x := ctxIO{F: f, IO: io, Dir: d, T: typeName(f.Signature.Recv().Type())}
 		instrsOf(f, func(in ssa.Instruction) {
 			if g, ok := in.(*ssa.Go); ok {
-				if mc, ok := g.Call.Value.(*ssa.MakeClosure); ok {
+				if mc, ok := origin(g.Call.Value).(*ssa.MakeClosure); ok {
 					x.Watch, _ = mc.Fn.(*ssa.Function)
 				}
 			}
@@ -119,14 +119,14 @@ func runC17(c *Ctx) {
 		var goInstr *ssa.Go
 		instrsOfU(F, func(in ssa.Instruction) {
 			if g, ok := in.(*ssa.Go); ok {
-				if mc, ok := g.Call.Value.(*ssa.MakeClosure); ok && sameOrigin(mc.Fn, ssa.Value(W)) {
+				if mc, ok := origin(g.Call.Value).(*ssa.MakeClosure); ok && sameOrigin(mc.Fn, ssa.Value(W)) {
 					goInstr = g
 				}
 			}
 		})
 		bindOf := func(v ssa.Value) ssa.Value { // free variable of the watcher -> the captured value of F
 			if fv, ok := v.(*ssa.FreeVar); ok && goInstr != nil {
-				mc := goInstr.Call.Value.(*ssa.MakeClosure)
+				mc := origin(goInstr.Call.Value).(*ssa.MakeClosure)
 				for i, q := range W.FreeVars {
 					if q == fv && i < len(mc.Bindings) {
 						return mc.Bindings[i]
@@ -469,7 +469,7 @@ func selCaseOnPath(p *upath, sel *ssa.Select) int {
 		if !ok || b.Op != token.EQL {
 			continue
 		}
-		ex, ok := b.X.(*ssa.Extract)
+		ex, ok := origin(b.X).(*ssa.Extract)
 		if !ok || ex.Index != 0 || !sameOrigin(ex.Tuple, ssa.Value(sel)) {
 			continue
 		}
